@@ -246,6 +246,8 @@ func buildBatchWorld(root string, days int) *batchWorld {
 		"Fptf":   "project=p3 plotNr=1 fcode=W parameter=par poligonID=K",
 		"Fgap":   "project=p2 plotNr=1 fcode=WG parameter=par poligonID=L",
 		"Fargs":  "plotNr=1 fcode=W",
+		// start year after the last year of the weather series (no year of the series is loaded at all)
+		"Flate": "project=p2 plotNr=1 fcode=W parameter=par poligonID=N StartYear=2005",
 	}}
 	return w
 }
